@@ -59,6 +59,7 @@ SAFE_METHODS = {
           'isdecimal', 'isalpha', 'isalnum', 'find', 'index', 'count', 'title', 'isupper', 'islower', 'splitlines', 'encode',
           'casefold', 'rfind', 'rsplit', 'partition', 'rpartition', 'isspace', 'isnumeric', 'zfill', 'capitalize', 'swapcase',
           'removeprefix', 'removesuffix', 'expandtabs', 'center', 'ljust', 'rjust'},
+    bytes: {'decode', 'startswith', 'endswith', 'lower', 'upper', 'strip', 'split', 'replace', 'find', 'hex'},
     list: {'append', 'extend', 'index', 'count', 'copy', 'remove', 'insert', 'pop', 'sort', 'reverse', 'clear'},
     tuple: {'index', 'count'},
     dict: {'get', 'keys', 'values', 'items', 'setdefault', 'update', 'pop', 'copy'},
